@@ -570,7 +570,7 @@ class Node(object):
             self.decide_class_change(individual_to_preempt)
         self.attach_server(server, next_individual)
         next_individual.service_start_date = self.now
-        next_individual.service_time = self.get_service_time(next_individual)
+        self.give_individual_a_service_time(next_individual)
         next_individual.service_end_date = self.now + next_individual.service_time
         self.reset_class_change(next_individual)
         server.next_end_service_date = next_individual.service_end_date
